@@ -9,6 +9,7 @@ constants are only ever tightened in the integer direction (floor after dividing
 from fractions import Fraction
 from math import gcd
 
+WIDEN_STEPS = (1, 2, 3, 4, 8, 16, 32, 64, 256, 4096, 65536)
 RELAX_MAX = 1 << 20    # joins relax a one-sided constraint by at most this much (avoids type-range noise)
 FM_CAP = 600          # max constraints during an elimination step; beyond it the query answers "unknown"
 
@@ -641,7 +642,9 @@ def join(a, b, extra_candidates=()):
                     if n is not True and n is not False:
                         cands.add(n)
     for q in extra_candidates:
-        cands.add(q)
+        n = norm_ineq(q)
+        if n is not True and n is not False:
+            cands.add(n)
     for q in cands:
         ea, eb = a.entails_ge(q), b.entails_ge(q)
         if ea and eb:
@@ -654,7 +657,7 @@ def join(a, b, extra_candidates=()):
     return r
 
 
-def widen(old, new):
+def widen(old, new, thresholds=False):
     """old ∇ new with new ⊒ old expected: keep equalities in the hull, inequalities of old that new entails"""
     if old.bottom:
         return new.copy()
@@ -666,6 +669,12 @@ def widen(old, new):
     for q in old.ineqs:
         if new.entails_ge(q):
             r.add_ge(q)
+        elif thresholds and len(q.t) == 1 and abs(q.c) <= 64:
+            # widening with thresholds (small counters only): relax the bound by a small step instead of dropping it
+            for d in WIDEN_STEPS[:6]:
+                if new.entails_ge(q + d):
+                    r.add_ge(q + d)
+                    break
     for p, ex in old.eqs.items():
         e = Lin.var(p) - ex
         if not r.entails_eq(e):
